@@ -607,7 +607,7 @@ pub fn run_batch(b: &Batch) -> BatchResult {
         match r.stats {
             Some(s) => {
                 out.runs_done += s.get("runs");
-                out.stats.merge(s);
+                out.stats.absorb(s);
             }
             None => match r.crashed_run {
                 Some(run) => out.crashes.push((run, r.crashed_case, r.exit, r.stderr_tail)),
